@@ -649,10 +649,17 @@ func runAdapters(f lib.Flags, res *lib.Result, drv *lib.Driver) {
 	} else {
 		tie.Fail(fmt.Errorf("no driver"))
 	}
+	stalled := 0
 	for i, c := range cases {
 		n, fl := c.n(), c.fails()
 		if oracleVerdict(c.RPC, c.governing(), n, fl) == "" {
 			continue // order-dependent (unary Race, mixed members)
+		}
+		if stalled >= 2 && c.RPC == "Pull" {
+			// every stalled subscription costs a full wait per execution and leaves its goroutines behind: after two
+			// of them (the run has failed on them anyway) the remaining Pull cases are skipped
+			mon.Count("skipped-after-2-stalled-subscriptions")
+			continue
 		}
 		// self-confirming: a disagreement or violation is only reported if the same case, re-executed in a
 		// fresh Group, shows it every time (3 more executions); vanished ones are counted, never hidden
@@ -667,7 +674,11 @@ func runAdapters(f lib.Flags, res *lib.Result, drv *lib.Driver) {
 		o := runAdapter(c)
 		if suspicious(o) {
 			tie.Count("retried-cases")
-			for k := 0; k < 3; k++ {
+			retries := 3
+			if strings.HasPrefix(o.Verdict, "stalled") {
+				retries = 1
+			}
+			for k := 0; k < retries; k++ {
 				if o2 := runAdapter(c); !suspicious(o2) {
 					tie.Count("retried-and-vanished")
 					mon.Count("retried-and-vanished")
@@ -680,6 +691,9 @@ func runAdapters(f lib.Flags, res *lib.Result, drv *lib.Driver) {
 		if answers != nil {
 			w, x := oracleVerdict(c.RPC, c.governing(), n, fl), oracleVerdict(c.RPC, c.other(), n, fl)
 			tie.Record(c.key(), x != "" && w != x, c, c.modelVerdict(answers[i]), o.Verdict)
+		}
+		if strings.HasPrefix(o.Verdict, "stalled") {
+			stalled++
 		}
 		tie.Count(c.Trait + "/" + c.RPC)
 		tie.Count("verdict:" + o.Verdict)
